@@ -850,10 +850,11 @@ class SessionManager:
         height_changed = height != self.notified_height
         if height_changed:
             await self._refresh_hsub_results(height)
-            # Invalidate our history cache for touched hashXs
-            cache = self._history_cache
-            for hashX in set(cache).intersection(touched):
-                del cache[hashX]
+        # Invalidate our history cache for touched hashXs.  Also when the height is
+        # unchanged: a reorg can end at the height it started from.
+        cache = self._history_cache
+        for hashX in set(cache).intersection(touched):
+            del cache[hashX]
 
         async with TaskGroup() as group:
             for session in self.sessions:
